@@ -320,8 +320,11 @@ def _clone_position(env, cb, adt, r):
         return False, "length of the source not known"
 
     def strip_conv(x):
+        """the plain value an atomic is built from: `v.into()`, `AtomicUsize::new(v)`"""
         x = unref(x)
-        while x[0] == "call" and x[1] == "conv" and x[2]:
+        while (x[0] == "call" and x[1] == "conv" and x[2]) or \
+                (x[0] in ("call", "ret") and isinstance(x[1], str) and "atomic::Atomic" in x[1] and x[1].endswith("::new")
+                 and len(x[2]) == 1):
             x = unref(x[2][0])
         return x
 
